@@ -38,7 +38,9 @@ RULE += (' ' +
          'to 2-3 address records per family. Round 13: component views - '
          "Join Game's game_mode / is_hardcore / pure_game_mode under all "
          'pairs and random sequences of assignments on a decoded packet, '
-         'then re-encoded. ')
+         'then re-encoded. Final sweep: 20 texts with one control / '
+         'whitespace character at either end in every String field of every '
+         'core packet at every release. ')
 LEVEL_TEXT = ('Differential testing of ids and byte layouts of the core '
               'packet set against an independent literal table and encoder, '
               'complete over releases x core packets, sampled over field '
@@ -415,6 +417,9 @@ def boundary_values(p, rel, specs, r):
 
 
 _RECYCLE_FROM = (47, 340, 578, 757)
+EDGE_TEXTS = ['a\r', 'a\n', 'a\t', 'a ', 'a\x00', 'a\r\r', '\r', '\ra',
+              '\na', ' a', '\x00a', 'a\x0b', 'a\x0c', 'a\x1f', 'a\x7f',
+              'a\x85', 'a\xa0', 'a\u2028', 'a\u3000', 'a\ufeff']
 
 
 def t_table(ctx, rounds, part=0, parts=1):
@@ -441,8 +446,18 @@ def t_table(ctx, rounds, part=0, parts=1):
                     packet_case(ctx, dict(case, recycle={
                         'release': r0, 'values': boundary_values(
                             p0, r0, specs_of(p0), r + 1)}))
+            # texts with one control / whitespace character at either end
+            # in every String field (a terminal leaves '\r' behind, a config
+            # file a trailing newline): carried as given
+            sfields = [a for a, t in p['layout'] if specs[a] == 'String']
+            if sfields:
+                base = boundary_values(p, rel, specs, 0)
+                for txt in EDGE_TEXTS:
+                    packet_case(ctx, {'release': rel, 'packet': p['name'],
+                                      'values': dict(base, **{
+                                          a: txt for a in sfields})})
     ctx.exhaustive_done('releases x core packets: ids, membership, boundary '
-                        'values')
+                        'values, edge texts in String fields')
 
 
 def t_random(ctx, n):
